@@ -31,6 +31,7 @@ def handle (st : DState) (line : String) : DState × String :=
   | ["nf9", a, d] =>
     let (res, c') := V9.decode st.nf9 (unhexArg a) (unhexArg d)
     ({ st with nf9 := c' }, showResult res)
+  | ["interp", t, b] => (st, (interpret (unhexArg b) t.toNat!).canon)
   | ["nf5", a, d] => (st, nf5Line (unhexArg a) (unhexArg d))
   | ["json", p, a, h, r] => (st, jsonLine p a h r)
   | ["cf-dump", p] => (st, hex (CacheFile.dumpJson (p == "ipfix") (if p == "ipfix" then st.ipfix else st.nf9)))
